@@ -8,6 +8,7 @@ CONSTANTS
   Extra <- Race3
   GFirst = TRUE
   SelDet = TRUE
+  RecSteps = FALSE
   LogOn = TRUE
   POR = TRUE
 CONSTRAINT DumpAll
